@@ -66,7 +66,7 @@ def gen(W):
     if W.chance(0.5):
         hdrs.append(["Content-Type", "text/plain; %s" % MARK])
     sc["headers"] = hdrs
-    sc["status"] = "200 OK"
+    sc["status"] = W.choice(["200 OK", "204 No Content", "304 Not Modified", "404 Not Found"], p0=0.7)
     sc["hostile"] = W.choice(["char_status", "char_name", "char_value", "char_special", "empty_name", "nonstr_status", "nonstr_name",
                               "nonstr_value", "hop_by_hop", "none", "strsub_status", "strsub_name", "strsub_value"], p0=0.05)
     sc["special"] = W.choice(["Content-Length", "content-length", "Date", "Server", "Content-Type", "Set-Cookie", "CONTENT-LENGTH"])
@@ -80,6 +80,10 @@ def gen(W):
     sc["declare_cl"] = W.chance(0.6)
     sc["version"] = W.choice(["1.1", "1.0"])
     sc["via_file"] = W.chance(0.1)
+    if sc["status"][:3] in ("204", "304"):
+        # responses without a body: the application's fields belong in the head all the same
+        sc["body"] = 0
+        sc["declare_cl"] = False
     return sc
 
 
@@ -94,7 +98,7 @@ def build_hostile(sc):
     i = sc["index"] % max(1, len(hdrs)) if hdrs else 0
     desc = h
     if h == "char_status":
-        status = place("200 OK" + MARK, off, sc["pos"])
+        status = place(sc["status"] + MARK, off, sc["pos"])
         must = sc["off"] in MUST_REFUSE
         desc = "char_status:%s@%d" % (sc["off"], sc["pos"])
     elif h == "char_name":
@@ -133,7 +137,7 @@ def build_hostile(sc):
         must = True
         desc = "nonstr_value:" + sc["nonstr"]
     elif h == "strsub_status":
-        status = Chameleon("200 OK" + MARK)
+        status = Chameleon(sc["status"] + MARK)
     elif h == "strsub_name":
         hdrs.insert(i, (Chameleon("X-Hostile" + MARK), "v" + MARK))
     elif h == "strsub_value":
@@ -248,6 +252,9 @@ def run_one(tapes, tier, scenario=None):
         if r.status != 500:
             # line-level comparison
             want = [(n_, v_) for n_, v_ in hdrs if isinstance(n_, str) and isinstance(v_, str)]
+            if sc["status"][:3] in ("204", "304"):
+                # the server legitimately leaves a Content-Length out of a head that has no body
+                want = [(n_, v_) for n_, v_ in want if n_.lower() != "content-length"]
             if sc["channel"] == "swallow_refusal" and app.raised is not None:
                 # the call was refused and the application carried on regardless: the element that made the
                 # server refuse must not be on the wire (bare CR/LF is checked above for every line)
